@@ -1,3 +1,4 @@
+import Generated.Facts
 import SsoSpec.C03
 
 /-!
@@ -120,5 +121,14 @@ example : canonRSA ["Content-Type", "Cookie"] [("Content-Type", ["a/b", ""]), ("
 reader over it (`NewBuffer`, `NopCloser`, `store:req.Body`) — no pooled or shared storage between requests. -/
 theorem C12_skeleton_mapRequestToHashInput : Sso.Generated.skel_proxy_mapRequestToHashInput =
     ["range{", "call:removeEmpty", "call:len", "if{", "call:Join", "call:append", "}", "}", "func{", "call:len", "if{", "}", "call:len", "if{", "}", "return", "}", "call:funclit", "call:append", "if{", "call:ReadAll", "call:NewBuffer", "call:NopCloser", "store:req.Body", "call:string", "call:append", "}", "call:Join", "return"] := by decide
+
+/-- Tie (T1): the signer — call/branch/store skeletons regenerated from the source on every run; the expectations below are
+what the model in this file transliterates. A structural edit of any of these functions breaks this theorem and sends the
+check searching for a failing input. -/
+theorem C12_wiring :
+    Sso.Generated.skel_signer_Sign =
+      ["call:mapRequestToHashInput", "if{", "call:Errorf", "return", "}", "call:newHasher", "call:Reset", "call:?", "call:Write", "call:Sum", "call:Sign", "if{", "call:Errorf", "return", "}", "call:EncodeToString", "call:Set", "call:Set", "return"] ∧
+    Sso.Generated.skel_signer_removeEmpty =
+      ["range{", "call:len", "if{", "call:append", "}", "}", "return"] := by decide
 
 end Sso.Forward
